@@ -9,7 +9,10 @@
    statement before c9128f1, which moved everything after line 165 down by 11).
 
    Kept: everything that decides the *structure* of the recipe (sections, content,
-   items, component tables, relations, modifiers, step numbers), whether analysis
+   items, component tables, relations, modifiers, step numbers), the value of every
+   quantity of an ingredient, a cookware item or a timer ([qi_value]; the quantities
+   of `inline_quantities` are made by find_inline_quantity, an oracle here, and only
+   counted: [r_inline]), whether analysis
    reported an error (PassResult::is_valid), and whether there is an output at
    all (a parser Error event: 200-212).  Dropped: the metadata map and every
    warning (they influence neither); diagnostics are reduced to the one bit
@@ -61,8 +64,12 @@ Inductive relation :=
 | RDef (referenced_from : list nat) (defined_in_step : bool)
 | RRef (references_to : nat) (tg : rtarget).
 
-(* what the structure keeps of a quantity *)
-Record qinfo := { qi_text : bool; qi_fixed : bool; qi_unit : option str }.
+(* what the structure keeps of a quantity: Quantity<ScalableValue> { value, unit } (src/quantity.rs).
+   [qi_value] is the Value inside ScalableValue::Fixed / ::Linear, exactly the event's value
+   (`value.into_inner()`, event_consumer.rs 1063 and 1083: nothing is computed on it; a number is
+   Number::value() as in Model/Events.v); [qi_fixed] says which of the two wrappers it is;
+   [qi_text] = the value is Value::Text (kept beside the value: the checks of the pass ask for it). *)
+Record qinfo := { qi_text : bool; qi_fixed : bool; qi_unit : option str; qi_value : pvalue }.
 
 (* Ingredient<ScalableValue> and Cookware<ScalableValue> *)
 Record component := {
@@ -279,14 +286,20 @@ Variable input : str.
 Variable x : aext.
 Variable cfg : acfg.
 
-(* ---- quantity / value (1019-1059) ---- *)
+(* ---- quantity / value (now 1044-1054 / 1056-1084): the value is moved into the result unchanged,
+   `ScalableValue::Linear(value.into_inner())` for an ingredient number or range without a lock,
+   `ScalableValue::Fixed(value.into_inner())` otherwise; the unit is its trimmed text.  Neither
+   resolve_reference (1086-1242) nor the reference checks of ingredient / cookware (644-774,
+   933-990) write a quantity: they read `quantity.is_some()`, `value().is_text()` and the unit. ---- *)
 Definition value_info (is_ingredient : bool) (v : pqvalue) : qinfo :=
   let t := pvalue_is_text (qv_value v) in
-  {| qi_text := t; qi_fixed := negb (is_ingredient && negb t && negb (qv_lock v)); qi_unit := None |}.
+  {| qi_text := t; qi_fixed := negb (is_ingredient && negb t && negb (qv_lock v)); qi_unit := None;
+     qi_value := qv_value v |}.
 
 Definition quantity_info (is_ingredient : bool) (q : pquantity) : qinfo :=
   let i := value_info is_ingredient (pq_value q) in
-  {| qi_text := qi_text i; qi_fixed := qi_fixed i; qi_unit := option_map text_trimmed (pq_unit q) |}.
+  {| qi_text := qi_text i; qi_fixed := qi_fixed i; qi_unit := option_map text_trimmed (pq_unit q);
+     qi_value := qi_value i |}.
 
 (* ---- metadata (329-380): only the config keys matter ---- *)
 Definition metadata (s : astate) (key value : text) : astate :=
